@@ -259,7 +259,8 @@ def vectorisers(b):
                     "vectorize_modulus_viscosity": ["frequency", "ADDR(modulus_view[0])", "ADDR(viscosity_view[0])", "ADDR(output_view[0])", "n"]}[meth]
             ok = a == want and "n = len(" + arrs[0] + ")" in ast.unparse(node)
             det = str(a)
-        ground(b, f"{mfn.key}::forwards", mfn.key, "public wrapper forwards &view[0] of each array and n = len(first array) to the cdef loop", ok, detail=det)
+        simple = len(calls_) == 1 and len(calls_[0].args) == 5
+        structural(b, f"{mfn.key}::forwards", mfn.key, "public wrapper forwards &view[0] of each array and n = len(first array) to the cdef loop", "ok" if ok else ("wrong" if simple else "unknown"), detail=det)
         sizes = {a: sp.Symbol("len_" + a, integer=True) for a in arrs}
         views = {a: SymArray(a, complex_=(a == "output_view"), shape=(sizes[a],)) for a in arrs}
         ex = Exec(mfn, contracts={"._" + meth: Contract("._" + meth, None, None, result=lambda *a_, **k: None)}, pre=[sp.Ge(s_, 1) for s_ in sizes.values()])
